@@ -48,8 +48,9 @@ class Adapter(EnvAdapter):
 
     # ---- configurations -------------------------------------------------------------------
     def configs(self, tier):
-        pol_rw = ["solve", "masked", "collide", "random", "mostly_masked"]
-        pol_un = ["greedy", "masked", "collide", "random", "mostly_masked"]
+        # solve / greedy seek completion, stall survives to the time limit, collide seeks head-on collisions
+        pol_rw = ["solve", "stall", "collide", "masked", "random", "mostly_masked"]
+        pol_un = ["greedy", "stall", "collide", "masked", "random", "mostly_masked"]
 
         def c(id, gen, n, k, t, episodes, max_steps, **kw):
             d = dict(id=id, ctor=dict(generator=gen, grid_size=n, num_agents=k, time_limit=t),
@@ -60,16 +61,16 @@ class Adapter(EnvAdapter):
 
         if tier == "quick":
             return [
-                c("default_rw10a10_t50", "default", 10, 10, 50, 2, 56, probe_every=5, probe_cap=64),
-                c("rw4a3_t7", "random_walk", 4, 3, 7, 10, 12, probe_cap=40),
-                c("rw3a2_t3", "random_walk", 3, 2, 3, 10, 8),
+                c("default_rw10a10_t50", "default", 10, 10, 50, 3, 56, probe_every=6, probe_cap=64),
+                c("rw4a3_t7", "random_walk", 4, 3, 7, 12, 12, probe_cap=36),
+                c("rw3a2_t3", "random_walk", 3, 2, 3, 12, 8),
                 c("rw3a2_t1", "random_walk", 3, 2, 1, 6, 5),
-                c("rw4a3_t2", "random_walk", 4, 3, 2, 6, 6, probe_cap=40),
-                c("rw6a3_t50", "random_walk", 6, 3, 50, 5, 56, probe_every=2, probe_cap=30),
-                c("un6a3_t50", "uniform", 6, 3, 50, 5, 56, probe_every=2, probe_cap=30),
+                c("rw4a3_t2", "random_walk", 4, 3, 2, 6, 6, probe_cap=36),
+                c("rw6a3_t50", "random_walk", 6, 3, 50, 6, 56, probe_every=3, probe_cap=30),
+                c("un6a3_t50", "uniform", 6, 3, 50, 6, 56, probe_every=3, probe_cap=30),
                 c("un3a2_t2", "uniform", 3, 2, 2, 8, 6),
-                c("un4a3_t7", "uniform", 4, 3, 7, 8, 12, probe_cap=40),
-                c("un10a10_t3", "uniform", 10, 10, 3, 2, 7, probe_cap=64),
+                c("un4a3_t7", "uniform", 4, 3, 7, 12, 12, probe_cap=36),
+                c("un10a10_t3", "uniform", 10, 10, 3, 3, 7, probe_cap=64),
             ]
         out = []
         for gen in ("random_walk", "uniform"):
@@ -160,6 +161,10 @@ class Adapter(EnvAdapter):
             return self._follow_solution(env, state, rng)
         if policy == "greedy":
             return self._greedy(env, state, obs, rng)
+        if policy == "stall":  # mostly no-ops, so that the episode lives until the time limit
+            a = np.asarray(self.masked_action(env, state, obs, rng)).copy()
+            a[rng.random(a.shape[0]) < 0.93] = 0
+            return a.astype(env.action_spec.dtype)
         if policy == "collide":
             masked = lambda: np.asarray(self.masked_action(env, state, obs, rng))
             if rng.random() < 0.6:
